@@ -15,9 +15,9 @@ Import TuiPrivacy TuiViews.
    covered by the feature), the source only with privacy off, hop data only for hops that are not hidden *)
 Definition frag_ok (p : option Z) (f : frag) : Prop :=
   match f with
-  | FLit _ | FDest _ => True
+  | FLit _ | FNum _ | FPct _ _ | FDest _ => True
   | FSrc => p = None
-  | FAddr t _ | FHost t _ | FAs t _ | FGeo t _ | FLoc t _ => hidden p t = false
+  | FAddr t _ | FHost t _ | FAs t _ _ | FGeo t _ _ | FLoc t _ => hidden p t = false
   end.
 
 Definition frags_ok (p : option Z) (l : list frag) : Prop := Forall (frag_ok p) l.
@@ -44,6 +44,17 @@ Proof. intros A t f l H. induction l as [|x r IH]; cbn [flat_map]; [constructor|
 
 Ltac about_one := split; [discriminate | first [left; reflexivity | right; reflexivity]].
 Ltac about_list := unfold about; repeat (apply Forall_cons; [about_one|]); try apply Forall_nil.
+(* lists built with ++ from explicit pieces *)
+Ltac about_auto :=
+  unfold about, angle;
+  repeat first [ apply Forall_nil | apply Forall_cons; [about_one|] | apply Forall_app; split ].
+
+Lemma about_join : forall t sep ls, about t sep -> Forall (about t) ls -> about t (join_frags sep ls).
+Proof.
+  intros t sep ls Hs H. induction H as [|l r Hl Hr IH]; [constructor|].
+  cbn [join_frags]. destruct r as [|l2 r2]; [exact Hl|].
+  apply about_app; [exact Hl|]. apply about_app; [exact Hs|exact IH].
+Qed.
 
 Lemma format_dns_entry_about : forall t a e b, about t (format_dns_entry t a e b).
 Proof.
@@ -51,28 +62,27 @@ Proof.
   destruct e as [|[[|]|]|[[|]|]| |]; try destruct b; cbn [andb negb]; about_list.
 Qed.
 
-Lemma format_address_about : forall c t af, about t (format_address c t af).
+Lemma format_address_about : forall c h af, about (h_ttl h) (format_address c h af).
 Proof.
-  intros c t af. unfold format_address. apply about_app; [|apply about_app].
+  intros c h af. unfold format_address. apply about_app; [|apply about_app].
   - destruct (c_addr_mode c =? 0); [unfold about; about_list|].
     destruct (c_addr_mode c =? 1); [apply format_dns_entry_about|].
     apply about_app; [apply format_dns_entry_about|unfold about; about_list].
   - destruct (c_geo_mode c =? 0); [constructor|]. destruct (c_geo c (fst af)); unfold about; about_list.
-  - unfold about; about_list.
+  - destruct (zlen (h_info h) >? 1); unfold about; about_list.
+Qed.
+
+Lemma host_lines_about : forall c h, about (h_ttl h) (host_lines c h).
+Proof.
+  intros c h. unfold host_lines. apply about_join; [about_list|].
+  apply Forall_forall. intros l Hl. apply in_map_iff in Hl. destruct Hl as (af & E & _). subst l. apply format_address_about.
 Qed.
 
 Lemma format_details_about : forall c h o, about (h_ttl h) (format_details c h o).
 Proof.
-  intros c h o. unfold format_details. destruct (nth_error (h_info h) (Z.to_nat o)) as [af|]; [|unfold about; about_list].
-  assert (G : about (h_ttl h) (match c_geo c (fst af) with Some _ => [FGeo (h_ttl h) (fst af)] | None => [FLit L_NOT_FOUND] end)).
-  { destruct (c_geo c (fst af)); unfold about; about_list. }
-  assert (A : forall asinfo, about (h_ttl h)
-     (if c_as_info c then match asinfo with Some false => [FAs (h_ttl h) (fst af)] | Some true => [FLit L_NOT_FOUND] | None => [FLit L_AWAITED] end
-      else [FLit L_NOT_ENABLED])).
-  { intros [[|]|]; destruct (c_as_info c); unfold about; about_list. }
-  destruct (c_dns c (c_as_info c) (fst af)); try (unfold about; about_list; fail);
-    (apply about_app; [unfold about; about_list|]); (apply about_app; [unfold about; about_list|]);
-    (apply about_app; [first [apply A|exact (A None)]|]); (apply about_app; [apply G|unfold about; about_list]).
+  intros c h o. unfold format_details. destruct (nth_error (h_info h) (Z.to_nat o)) as [af|]; [|about_list].
+  destruct (c_dns c (c_as_info c) (fst af)) as [|asinfo|asinfo| |]; try (about_list; fail);
+    try (destruct asinfo as [[|]|]); destruct (c_as_info c); destruct (c_geo c (fst af)); about_auto.
 Qed.
 
 Lemma lit_ok : forall p n, frag_ok p (FLit n).
@@ -85,7 +95,7 @@ Proof.
   intros c h. unfold host_cell, render_hostname.
   destruct (h_total_recv h >? 0); [|repeat constructor].
   destruct (hidden (c_privacy c) (h_ttl h)) eqn:E; [repeat constructor|].
-  cbn [text_frags]. apply (about_ok _ (h_ttl h)); [exact E|]. apply about_flat_map. intros x. apply format_address_about.
+  cbn [text_frags]. apply (about_ok _ (h_ttl h)); [exact E|]. apply host_lines_about.
 Qed.
 
 Lemma host_cell_details_ok : forall c h o, frags_ok (c_privacy c) (host_cell_details c h o).
@@ -132,13 +142,20 @@ Qed.
 Lemma lits_ok : forall p l, frags_ok p (map FLit l).
 Proof. intros p l. induction l; cbn; constructor; [exact I|assumption]. Qed.
 
+Lemma table_rows_ok : forall st rows, table_rows st = Ok rows ->
+  Forall (fun r => frags_ok (c_privacy (s_cfg st)) (fst r)) rows.
+Proof.
+  intros st rows H. unfold table_rows in H.
+  destruct (selected_hop st) as [sel| |]; cbn [bind] in H; try discriminate H.
+  eapply map_r_Forall; [exact H|]. intros x y Hy. eapply table_row_ok; eauto.
+Qed.
+
 Lemma table_view_ok : forall st t, table_view st = Ok t -> frags_ok (c_privacy (s_cfg st)) t.
 Proof.
   intros st t H. unfold table_view in H.
-  destruct (selected_hop st) as [sel| |]; cbn [bind] in H; try discriminate H.
-  destruct (map_r (table_row st sel) (s_hops st)) as [rows| |] eqn:E; cbn [bind] in H; try discriminate H.
+  destruct (table_rows st) as [rows| |] eqn:E; cbn [bind] in H; try discriminate H.
   inversion H; subst. apply Forall_app. split; [apply lits_ok|].
-  apply frags_ok_flat_map. eapply map_r_Forall; [exact E|]. intros x y Hy. eapply table_row_ok; eauto.
+  apply frags_ok_flat_map. eapply table_rows_ok; exact E.
 Qed.
 
 (* ------------------------------------------------------------------ the map *)
@@ -150,7 +167,9 @@ Proof.
   cbn [text_frags]. destruct (negb (c_mmdb c)); [repeat constructor|].
   destruct (filter _ es) as [|e [|e2 r]].
   - destruct (zlen (h_info sel) >? 0); [|repeat constructor].
-    apply Forall_app. split; [repeat constructor|]. induction (h_info sel); cbn [map]; constructor; [exact E|assumption].
+    apply Forall_app. split; [repeat constructor|]. apply Forall_app. split; [|repeat constructor].
+    apply (about_ok _ (h_ttl sel)); [exact E|]. apply about_join; [about_list|].
+    apply Forall_forall. intros l Hl. apply in_map_iff in Hl. destruct Hl as (af & El & _). subst l. about_list.
   - constructor; [exact E|constructor].
   - repeat constructor.
 Qed.
@@ -213,7 +232,7 @@ Proof.
   { unfold footer_view in F. destruct (selected_hop_or_target st); cbn [bind] in F; try discriminate F. inversion F. repeat constructor. }
   unfold frags_ok in *.
   apply Forall_app; split.
-  { (* header *) unfold header_view, render_source, render_destination.
+  { (* header *) unfold header_view, target_line, render_source, render_destination.
     destruct (c_privacy (s_cfg st)); cbn [text_frags List.app]; repeat constructor. }
   apply Forall_app; split.
   { (* tabs / flows *) destruct (1 <? s_ntraces st).
@@ -341,6 +360,6 @@ Definition ex_table_state (p : option Z) : vstate :=
 
 Example ex_table_frame :
   table_view (ex_table_state (Some 3)) =
-    Ok [FLit 1; FLit 0; FLit 2;  FLit 1; FLit L_HIDDEN; FLit 2;  FLit 1; FAddr 5 51; FLit L_LABEL; FLit L_LABEL; FLit 4; FLit 2].
+    Ok [FLit 1; FLit 0; FLit 2;  FLit 1; FLit L_HIDDEN; FLit 2;  FLit 1; FAddr 5 51; FLit 2].
 Proof. vm_compute. reflexivity. Qed.
 
